@@ -795,7 +795,7 @@ func init() {
 					}
 				}
 				walk(s.Root, 0)
-				if len(rec.Toks) <= 40 && len(rec.Nodes) <= 60 {
+				if len(rec.Toks) <= 60 && len(rec.Nodes) <= 90 {
 					b, _ := json.Marshal(rec)
 					dumpW.Write(b)
 					dumpW.WriteByte('\n')
